@@ -562,3 +562,8 @@ func (p *Prog) isAnchorFn(f *ssa.Function) bool {
 	}
 	return p.anchors[p.AnchorName(f)]
 }
+
+// DeadLiteral reports whether f is a function literal that flattening left
+// without a creator: every call of it was inlined, so its body is looked at
+// through those copies only.
+func (p *Prog) DeadLiteral(f *ssa.Function) bool { return p.deadLits[f] }
